@@ -274,4 +274,32 @@ def run(P, rep, tier):
     rep.ob('C03.EOS', 'link4:eos-moves-to-show-existing', moved, pk.loc(clears[0]) if clears else pk.loc(),
            'when the EOS packet is followed by a show-existing packet the bit is cleared on the first and set on the second' if moved else
            'the EOS bit is cleared for a packet with a trailing show-existing frame but not set on that frame\'s packet (or the hand-over is gone): the stream ends without EOS or with EOS before the last packet')
-    rep.floor('C03.EOS', 5)
+    recon_eos_atomic(P, rep, 'C03.EOS', 'link5:recon-eos-atomic')
+    rep.floor('C03.EOS', 6)
+
+
+def recon_eos_atomic(P, rep, rule, key):
+    """Reconstructed pictures: which buffer carries EOS is decided by comparing a shared counter with terminating_picture_number.
+    The decision, the counter increment and the delivery of that buffer must be one critical section: if the buffer is posted
+    after the lock is dropped, another picture that took a later counter value can be delivered first, and an application
+    that stops at the EOS-flagged recon picture never sees it."""
+    from engine.locks import LockAnalysis
+    f = P.fn('recon_output')
+    la = LockAnalysis(P)
+    CNT = 'EncodeContext.total_number_of_recon_frames'
+    MUT = 'EncodeContext.total_number_of_recon_frame_mutex'
+    rmw = [ev for ev in f.events(('st',)) if ev['e'][0] in ('a', 'u') and last_field(strip(ev['e'][2])) == CNT]
+    posts = [ev for ev, n in f.calls(('svt_post_full_object',))]
+    if not rmw or not posts:
+        raise AnalysisBroken('recon_output: counter update (%d) / post (%d) not found' % (len(rmw), len(posts)))
+    probs = []
+    for ev in rmw:
+        must, may = la.held_classes_at(f, ev)
+        if MUT not in must:
+            probs.append('counter updated at line %s without the counter mutex' % ev.get('l'))
+    for ev in posts:
+        must, may = la.held_classes_at(f, ev)
+        if MUT not in must:
+            probs.append('the recon buffer is posted (line %s) after the counter mutex was released: a picture with a later count can be delivered before the EOS-flagged one' % ev.get('l'))
+    rep.ob(rule, key, not probs, f.loc(posts[0]),
+           'recon_output: EOS decision, counter increment and delivery of the buffer form one critical section under total_number_of_recon_frame_mutex' if not probs else '; '.join(probs))
